@@ -6,7 +6,7 @@ null semantics as stated in property C04: a resolver error or a null in a
 non-null position yields null at exactly that position plus one error with
 that response path; siblings are not disturbed (no null propagation).
 """
-from .workload import ENUM_VALUES, effective_kwargs, excluded
+from .workload import ENUM_VALUES, effective_kwargs, excluded, named
 from .world import obj_type
 
 _ENUM_NAME = {internal: name for name, internal in ENUM_VALUES}
@@ -16,7 +16,7 @@ class Expected:
     __slots__ = ("data", "errors", "resolved", "invoked", "crash",
                  "positions", "root_keys", "merged_groups", "frag_applied",
                  "frag_rejected", "max_list", "root_spans", "arg_errors",
-                 "uncalled", "divergent_groups")
+                 "uncalled", "divergent_groups", "enum_fields")
 
     def __init__(self):
         self.data = None
@@ -33,6 +33,7 @@ class Expected:
         self.arg_errors = 0
         self.uncalled = set()  # resolved paths whose resolver is not called
         self.divergent_groups = 0  # same first node, other merged group
+        self.enum_fields = []  # paths of (non-list) enum-typed fields
 
 
 def serialize_leaf(base, v):
@@ -164,7 +165,14 @@ class Model:
                 "ext": error_extensions(path) if fault == "errx" else None,
             })
             return None
-        if fault is not None and fault.startswith("boom"):
+        if fdef.type[0] != "L" and not (
+                fdef.type[0] == "NN" and fdef.type[1][0] == "L") and \
+                named(fdef.type) == "Color":
+            exp.enum_fields.append(path)
+        if fault is not None and (fault.startswith("boom")
+                                  or fault == "badenum"):
+            # (badenum: the resolver hands back a value that is no member of
+            # the enum -- a developer error, no response is specified)
             exp.crash = True
             return None
         raw = self.world.field_value(
